@@ -64,7 +64,7 @@ LEVEL_NOTE = ('Trusted: NumPy, scipy.optimize (Nelder-Mead inside the sup '
               'product (pinned by C02) from which the reference weights are '
               'read. Real spaces only; convex parameter choices only.')
 DESIGN_REF = 'DESIGN.md section 5, C08'
-BUDGET = {'quick': 6000, 'thorough': 80000}
+BUDGET = {'quick': 4800, 'thorough': 60000}
 K_TOL = 512
 TOLERANCES = {
     'fenchel_young': 'f(x)+f*(y) >= <x,y> - 512*eps*n*(1+|f|+|f*|+sum '
@@ -203,10 +203,6 @@ def _evaluable(fn, x):
         return False
 
 
-class Ctx(object):
-    pass
-
-
 # --------------------------------------------------------------------------
 # the case
 
@@ -272,6 +268,9 @@ def known_region(B):
             return 'C08-K4'
         if r.get('linneg'):
             return 'C08-K6'
+    if B.cls == 'rightscal' and B.children[0].f.is_linear and any(
+            b.region.get('qplin') for b in B.children[0].nodes()):
+        return 'C08-K7'
     return None
 
 
@@ -466,7 +465,9 @@ def _check_node(B, pts, top, fd, ctx, probe=True):
             return
         res = ref.conj_residual(yf)
         margin = 1e3 * eps * (1.0 + float(np.max(np.abs(yf))) if n else 1.0)
-        if res is not None and abs(res) <= margin:
+        if res is not None and abs(res) <= margin and not (
+                ref.thin_conj_dom and res == 0):
+            # (a thin domain -- a single point -- hit exactly is judged)
             note('boundary_skipped')
             return
         lv = _val(fc, ye, 'f*(y)', sig)
@@ -484,12 +485,13 @@ def _check_node(B, pts, top, fd, ctx, probe=True):
         # conditioning: the conjugate may be steep next to the boundary of
         # its domain; allow what an input perturbation of a few ulp does to
         # the reference
-        dy = 32 * eps * (np.abs(yf) + 1.0)
-        r1, r2 = ref.conj(yf + dy), ref.conj(yf - dy)
-        if not (np.isfinite(r1) and np.isfinite(r2)):
-            note('boundary_skipped')
-            return
-        t += 4 * (abs(r1 - rv) + abs(r2 - rv))
+        if not (ref.thin_conj_dom and res == 0):
+            dy = 32 * eps * (np.abs(yf) + 1.0)
+            r1, r2 = ref.conj(yf + dy), ref.conj(yf - dy)
+            if not (np.isfinite(r1) and np.isfinite(r2)):
+                note('boundary_skipped')
+                return
+            t += 4 * (abs(r1 - rv) + abs(r2 - rv))
         if abs(lv - rv) > t:
             raise Violation(
                 sig(clause),
@@ -817,13 +819,6 @@ def _huber_prox_known(B):
     return any('huber' in b.region and
                (b.region['huber'].startswith('vec') or
                 'array' in b.region['huber'])
-               for b in B.nodes())
-
-
-def _huber_grad_known(B):
-    """Huber.gradient raises on array-weighted spaces (root cause F25,
-    reported by C09); not used as a source of sub-gradients here."""
-    return any('huber' in b.region and 'array' in b.region['huber']
                for b in B.nodes())
 
 
